@@ -224,6 +224,42 @@ impl Check for C15 {
                 }
             }
         });
+        // long surfaces: offsets beyond 256 along one axis (strides, narrow casts)
+        let long: Vec<i32> = vec![-1, 0, 1, 255, 256, 257, 299, 300, 301];
+        let short: Vec<i32> = vec![-1, 0, 1, 2, 3];
+        run.bound("long-surfaces", format!("300x2 and 2x300 sources and destinations (4 shape pairs): src_rect long-axis coordinates in {:?}^2, short-axis in {{0,-1}}x{{2,3}}, dst long-axis in {:?}, short-axis in {:?}, copy / alpha 0.5 / Xor", long, long, short));
+        let lshapes = [(300, 2, 300, 2), (2, 300, 2, 300), (300, 2, 2, 300), (2, 300, 300, 2)];
+        run.par(lshapes.len() * long.len(), |si, l| {
+            let (sw, sh, dw, dh) = lshapes[si / long.len()];
+            let a0 = long[si % long.len()];
+            for &a1 in &long {
+                for (b0, b1) in [(0, 2), (-1, 3), (1, 2)] {
+                    let r = if sw > sh { [a0, b0, a1, b1] } else { [b0, a0, b1, a1] };
+                    for &da in &long {
+                        for &db in &short {
+                            let d = if dw > dh { [da, db] } else { [db, da] };
+                            for op in [BOp::Copy, BOp::Alpha(0.5), BOp::Blend(BlendMode::Xor)] {
+                                let c = Case { sw, sh, dw, dh, r, d, op, ctx: false };
+                                l.states += 1;
+                                l.transitions += 1;
+                                l.traces += 1;
+                                l.evals += 1;
+                                match eval(&c) {
+                                    Res::Ok(h, moved) => {
+                                        l.outcome(h);
+                                        if moved {
+                                            l.nontrivial += 1;
+                                        }
+                                    }
+                                    Res::Skip => l.count("skipped_reference_undefined_nonseparable_overflow", 1),
+                                    Res::Bad(v) => run.report(100_000 + si, v),
+                                }
+                            }
+                        }
+                    }
+                }
+            }
+        });
     }
 
     fn replay(&self, case: &str) -> Result<Option<Violation>, String> {
